@@ -46,6 +46,7 @@ fn main() {
         "ingest-fuzz" => ingest::cmd_fuzz(args[2].parse().unwrap(), &args[3]),
         "ingest-child" => ingest::cmd_child(&args[2], args[3].parse().unwrap()),
         "macro-runtime" => macrort::cmd_runtime(&args[2], &args[3]),
+        "auth-record" => auth::cmd_record(&args[2], &args[3]),
         "auth-replay" => auth::cmd_replay(&args[2], &args[3]),
         "dlog-replay" => dlog::cmd_replay(&args[2], &args[3]),
         "chain-honest" => chain::cmd_honest(&args[2], &args[3]),
